@@ -411,6 +411,7 @@ func pmGenCase(t *rapid.T, prop string) (pmCase, string, bool) {
 		return c, "", false
 	}
 	c.KStart, c.KEnd = ks, ke
+	c.Tables = rapid.SampledFrom([]int{0, 0, 1, 2, 3, 3}).Draw(t, "tables")
 	c.Ops = pmGenOps(t, vlib.Scale(120, 400), prop == "C03")
 	return c, where, true
 }
